@@ -1,1 +1,146 @@
-(* stub: to be written *)
+(* C14 — export is deterministic and independent of history.
+   Only statements here; models and proofs live in theories/Determinism.v (site list with file:line there).
+   CPython's hash order, id() values and onnx_ir's per-value use order are NOT modelled: they are covered
+   by the harness sweep (harness/c14.py) only. *)
+From Coq Require Import String List Arith Bool PeanoNat Permutation.
+From J2O Require Import Graph Determinism.
+Import ListNotations.
+
+(* ---- (a) schema: a loop over a set whose per-element actions commute computes EQUAL results for
+   every iteration order *)
+Theorem C14_fold_order_irrelevant : forall (A S : Type) (act : A -> S -> S),
+  (forall a b s, act a (act b s) = act b (act a s)) ->
+  forall l l', Permutation l l' -> forall s0,
+  fold_left (fun s a => act a s) l s0 = fold_left (fun s a => act a s) l' s0.
+Proof. exact fold_order_irrelevant. Qed.
+Print Assumptions C14_fold_order_irrelevant.
+
+(* S1 S9: `for t in output_transposes: replace_all_uses_with(t_out, t_in)` under the exact side
+   condition (distinct olds, no new equal to another member's old) *)
+Theorem C14_site_rauw_order_irrelevant : forall l l' g,
+  (forall a b, In a l -> In b l -> a = b \/
+     (fst a <> fst b /\ snd a <> fst b /\ snd b <> fst a)) ->
+  Permutation l l' ->
+  fold_left (fun s p => replace_all_uses (fst p) (snd p) s) l g =
+  fold_left (fun s p => replace_all_uses (fst p) (snd p) s) l' g.
+Proof. exact site_rauw_order_irrelevant. Qed.
+Print Assumptions C14_site_rauw_order_irrelevant.
+
+(* ... which the matching logic establishes: olds are outputs of distinct nodes, no new is an old *)
+Theorem C14_site_rauw_side_condition : forall l : list (name * name),
+  NoDup (map fst l) -> (forall a b, In a l -> In b l -> snd a <> fst b) ->
+  forall a b, In a l -> In b l -> a = b \/ rauw_compat a b.
+Proof. exact rauw_side_condition. Qed.
+Print Assumptions C14_site_rauw_side_condition.
+
+(* S2 S4 S10: graph.remove(list(<set>)) *)
+Theorem C14_remove_list_of_set_order_irrelevant : forall dead dead' g,
+  Permutation dead dead' -> remove_producers dead g = remove_producers dead' g.
+Proof. exact remove_list_of_set_order_irrelevant. Qed.
+Print Assumptions C14_remove_list_of_set_order_irrelevant.
+
+(* S3 S13: read-only loop collecting a list that is then removed *)
+Theorem C14_site_collect_remove_order_irrelevant : forall removable l l' g,
+  Permutation l l' -> site_collect_remove removable l g = site_collect_remove removable l' g.
+Proof. exact site_collect_remove_order_irrelevant. Qed.
+Print Assumptions C14_site_collect_remove_order_irrelevant.
+
+(* S11: removal inside the loop guarded by a test against a snapshot *)
+Theorem C14_site_remove_unused_order_irrelevant : forall unused l l' g,
+  Permutation l l' ->
+  fold_left (fun s t => remove_unused_act unused t s) l g = fold_left (fun s t => remove_unused_act unused t s) l' g.
+Proof. exact site_remove_unused_order_irrelevant. Qed.
+Print Assumptions C14_site_remove_unused_order_irrelevant.
+
+(* S5: agreement of the source permutations (loop with break) *)
+Theorem C14_site_perm_agree_order_irrelevant : forall l l', Permutation l l' -> perm_loop l = perm_loop l'.
+Proof. exact site_perm_agree_order_irrelevant. Qed.
+Print Assumptions C14_site_perm_agree_order_irrelevant.
+
+(* S6 S12: read-only check with break, and the set it collects *)
+Theorem C14_site_check_collect_order_irrelevant : forall (A : Type) (good : A -> bool) outs (l l' : list A),
+  Permutation l l' ->
+  match check_collect good outs l, check_collect good outs l' with
+  | Some s, Some s' => Permutation s s'
+  | None, None => True
+  | _, _ => False
+  end.
+Proof. exact @site_check_collect_order_irrelevant. Qed.
+Print Assumptions C14_site_check_collect_order_irrelevant.
+
+(* S7: the dict built from the set answers every lookup the same *)
+Theorem C14_site_build_map_order_irrelevant : forall d d', NoDup (map fst d) -> Permutation d d' ->
+  forall k, dict_get k d = dict_get k d'.
+Proof. exact site_build_map_order_irrelevant. Qed.
+Print Assumptions C14_site_build_map_order_irrelevant.
+
+(* S12: every member rewrites its own inputs *)
+Theorem C14_site_rewire_order_irrelevant : forall old new l l' g,
+  Permutation l l' ->
+  fold_left (fun s m => rewire_act old new m s) l g = fold_left (fun s m => rewire_act old new m s) l' g.
+Proof. exact site_rewire_order_irrelevant. Qed.
+Print Assumptions C14_site_rewire_order_irrelevant.
+
+(* S8 (remove_redundant_transpose_pairs_ir :1546): rewire + shape refresh in set order.
+   The full-strength statement is FALSE of the faithful model ... *)
+Theorem C14_site_refresh_order_irrelevant_refuted :
+  exists F l l' sh dom, Permutation l l' /\
+    map (fold_left (fun s m => refresh_act F m s) l sh) dom <>
+    map (fold_left (fun s m => refresh_act F m s) l' sh) dom.
+Proof. exact site_refresh_order_irrelevant_refuted. Qed.
+Print Assumptions C14_site_refresh_order_irrelevant_refuted.
+
+(* ... and holds exactly when no member reads another member's output (NOT guaranteed by the pass:
+   elem_nodes is a connected elementwise DAG) *)
+Theorem C14_site_refresh_order_irrelevant_partial : forall F (l l' : list (name * list name)) sh dom,
+  (forall a b, In a l -> In b l -> a = b \/
+     (fst a <> fst b /\ ~ In (fst a) (snd b) /\ ~ In (fst b) (snd a))) ->
+  Permutation l l' ->
+  map (fold_left (fun s m => refresh_act F m s) l sh) dom =
+  map (fold_left (fun s m => refresh_act F m s) l' sh) dom.
+Proof. exact site_refresh_partial. Qed.
+Print Assumptions C14_site_refresh_order_irrelevant_partial.
+
+(* S14 (plugins/plugin_system.py:952): names of a STRING set appended to the function-call inputs *)
+Theorem C14_site_append_order_irrelevant_refuted :
+  exists (keep : nat -> bool) l l' acc, Permutation l l' /\
+    fold_left (fun s a => append_act keep a s) l acc <> fold_left (fun s a => append_act keep a s) l' acc.
+Proof. exact site_append_order_irrelevant_refuted. Qed.
+Print Assumptions C14_site_append_order_irrelevant_refuted.
+
+Theorem C14_site_append_order_irrelevant_partial : forall (A : Type) (keep : A -> bool) l l' acc,
+  length (filter keep l) <= 1 -> Permutation l l' ->
+  fold_left (fun s a => append_act keep a s) l acc = fold_left (fun s a => append_act keep a s) l' acc.
+Proof. exact @site_append_partial. Qed.
+Print Assumptions C14_site_append_order_irrelevant_partial.
+
+(* ---- (b) names are a function of the request: equivalence with "every counter is per conversion" *)
+Theorem C14_names_history_independent_iff : forall c,
+  all_per_conversion c = true <-> (forall h1 h2 r, names_after c h1 r = names_after c h2 r).
+Proof. exact names_history_independent_iff. Qed.
+Print Assumptions C14_names_history_independent_iff.
+
+(* for the scopes of the unchanged tree (all three families constructed per IRContext/IRBuilder) *)
+Theorem C14_names_history_independent : forall h1 h2 r,
+  names_after (mkScopes true true true) h1 r = names_after (mkScopes true true true) h2 r.
+Proof. exact names_history_independent. Qed.
+Print Assumptions C14_names_history_independent.
+
+(* a module-global function-name counter would refute it with two conversions *)
+Theorem C14_names_history_independent_refuted_for_global_func_counter :
+  exists h1 h2 r, names_after (mkScopes true true false) h1 r <> names_after (mkScopes true true false) h2 r.
+Proof. exact names_history_independent_refuted_for_global_func_counter. Qed.
+Print Assumptions C14_names_history_independent_refuted_for_global_func_counter.
+
+(* ---- (c) the lowering-signature memo table *)
+Theorem C14_signature_cache_transparent : forall (V : Type) (f : nat -> V) ks t,
+  memo_consistent V f t ->
+  fst (memo_calls V f ks t) = map f ks /\ memo_consistent V f (snd (memo_calls V f ks t)).
+Proof. exact signature_cache_transparent. Qed.
+Print Assumptions C14_signature_cache_transparent.
+
+Theorem C14_signature_cache_history_independent : forall (V : Type) (f : nat -> V) hist1 hist2 ks,
+  fst (memo_calls V f ks (snd (memo_calls V f hist1 []))) =
+  fst (memo_calls V f ks (snd (memo_calls V f hist2 []))).
+Proof. exact signature_cache_history_independent. Qed.
+Print Assumptions C14_signature_cache_history_independent.
